@@ -90,6 +90,23 @@ func (c *Ctx) mkComb(root *Node, obj *AV, canon bool) *combCase {
 		c.count("whole_on_reused_evaluator")
 	}
 	cc.whole = evalOn(cc.text, m, poison)
+	if c.R.Chance(1, 8) && len(cc.whole.Calls) == 0 && cc.whole.E != "escaped" {
+		// the same rule through the one-shot entry point of the root package, on this object and on the empty / nil
+		// object: a compound rule is the same combination of its comparisons whichever entry point evaluates it
+		for _, o := range []map[string]interface{}{m, {}, nil} {
+			ref := cc.whole
+			if o == nil || len(o) == 0 {
+				ref = evalFresh(cc.text, o)
+			}
+			rv, re, resc := rulesEvaluate(cc.text, o)
+			c.count("root_evaluate_cross_check")
+			if resc == "" && ref.E != "escaped" && (rv != ref.V || (re != "-") != (ref.E != "-")) {
+				c.violate(Violation{What: "rules.Evaluate gives the rule another outcome than NewEvaluator+Process on the same object", Rule: cc.text, RuleHex: hx(cc.text),
+					Object: fmt.Sprintf("%v", snap(o)), ObjProto: obj.String(), Demand: "the outcome of Process: " + ref.Line(), Go: fmt.Sprintf("rules.Evaluate -> (%v, err=%s)", rv, re)})
+				break
+			}
+		}
+	}
 	cc.shapeOK = true
 	for _, lf := range cc.leaves {
 		lt := c.style(true).Render(lf)
